@@ -298,3 +298,30 @@ Proof.
   - apply step_items_no_fuel.
   - exfalso. revert E. apply pcw_no_fuel.
 Qed.
+
+(* ---------- retries and histories of pairing-management calls ---------- *)
+Lemma mgmt_retry_done : forall attempts op evs,
+    mgmt_ble_retry attempts op evs = Ok MDone ->
+    exists pre x post, evs = pre ++ Some x :: post /\ Forall (fun e => e = None) pre /\
+                       length pre < attempts /\ mgmt_ble op x = Ok MDone.
+Proof.
+  induction attempts as [|n IH]; intros op evs H; [discriminate|].
+  cbn [mgmt_ble_retry] in H. destruct evs as [|[x|] rest]; [discriminate| |].
+  - exists [], x, rest. repeat split; [constructor|cbn; lia|exact H].
+  - destruct (IH op rest H) as [pre [x [post [E [F [L M]]]]]].
+    exists (None :: pre), x, post. subst. repeat split; [constructor; [reflexivity|exact F]|cbn; lia|exact M].
+Qed.
+
+(* whatever happened in earlier calls and earlier attempts: a call is reported done only if the transaction
+   that was finally answered succeeded at PDU level and its reply carries no Error item and no wrong State *)
+Theorem mgmt_history_done_clean calls i op evs :
+  nth_error calls i = Some (op, evs) ->
+  nth_error (mgmt_ble_history calls) i = Some (Ok MDone) ->
+  exists pre x post, evs = pre ++ Some x :: post /\ Forall (fun e => e = None) pre /\
+    fst x = 0%N /\ exists d, mgmt_payload op (snd x) = Some d /\ ~ bad_reply d 2.
+Proof.
+  intros Hc Hh. unfold mgmt_ble_history in Hh.
+  rewrite nth_error_map, Hc in Hh. cbn [option_map fst snd] in Hh. injection Hh as Hh.
+  destruct (mgmt_retry_done _ _ _ Hh) as [pre [x [post [E [F [_ M]]]]]].
+  exists pre, x, post. split; [exact E|]. split; [exact F|]. now apply mgmt_ble_done_clean.
+Qed.
